@@ -39,6 +39,7 @@ package httpcache
 //@   ensures upstreamCalls == old(upstreamCalls) + 1                                          # name: one-upstream-call
 //@   ensures (resp != nil && resp.Header != nil && err == nil) || (resp == nil && err != nil) # name: result-shape
 //@   ensures resp != nil ==> fresh(resp) && fresh(resp.Header)                                # name: reply-is-fresh-object
+//@   ensures lastUpstreamFailed == (err != nil)                                               # name: failure-recorded
 //@   ensures ns(start) >= ns(old(now)) && ns(end) >= ns(start) && ns(now) >= ns(end)          # name: times-ordered
 
 // The synthesised 504 (http.ReadResponse over constant bytes): trusted shape.
@@ -75,6 +76,7 @@ package httpcache
 //@   assigns *
 //@   ensures result0 == stored.Data && result1 == nil                              # name: returns-stored
 //@   ensures upstreamCalls == old(upstreamCalls)                                    # name: no-upstream-in-foreground
+//@   ensures result0 != nil                                                         # name: non-nil
 
 //@ func (*transport).handleCacheHit
 //@   property C01 C02 C18
